@@ -30,6 +30,9 @@ static rc::Gen<Op> c10_op()
 	    {2, op_gen(BATCH, conn, rng(2, 5), zero(), zero(), zero(), zero(), jn)},
 	    {8, rc::gen::apply([](int conn, std::vector<int> v) { Op o; o.kind = WPLAN; o.conn = conn; o.v = v; return o; }, conn, rc::gen::resize(6, rc::gen::container<std::vector<int>>(decision)))},
 	    {8, op_gen(DRAIN, conn, zero(), zero(), zero(), zero(), zero(), jn)},
+	    // the socket becomes writable in the same readiness event in which input arrives that produces no frame for this connection
+	    // (d = 1: expanded by c10_gen into a response cut short + DRAIN + an id-less request of the same connection)
+	    {3, op_gen(DRAIN, conn, path, val, zero(), rc::gen::just(1), zero(), nojoin())},
 	    {1, op_gen(CONNECT, zero(), rng(0, 3), rng(0, 4), zero(), zero(), zero(), nojoin())},
 	    {1, op_gen(END, conn, rng(0, 3), zero(), zero(), zero(), zero(), jn)},
 	});
@@ -45,7 +48,16 @@ static rc::Gen<Scenario> c10_gen()
 		// many subscriptions on the readers, several states of different sizes on the publisher: every change fans out into many frames
 		for (int c = 0; c < 2; c++) for (int f = 0; f < 3; f++) { Op o; o.kind = FETCH; o.conn = c; o.a = f; o.b = 0; sc.ops.push_back(o); }
 		for (int p = 0; p < 3 + big; p++) { Op o; o.kind = ADD; o.conn = 2; o.a = p; o.b = 4 + p % 6; sc.ops.push_back(o); }
-		for (auto &o : ops) sc.ops.push_back(o);
+		for (auto &o : ops) {
+			if (o.kind == DRAIN && o.d == 1) {
+				{ Op w; w.kind = WPLAN; w.conn = o.conn; w.v = {1 + 4 * (3 + o.b)}; sc.ops.push_back(w); }                    // the next write is cut after a few bytes
+				{ Op i; i.kind = INFO; i.conn = o.conn; sc.ops.push_back(i); }                                                  // a response for this connection: torn, rest queued
+				{ Op d; d.kind = DRAIN; d.conn = o.conn; sc.ops.push_back(d); }
+				{ Op c; c.kind = o.a % 2 ? CONFIG : REMOVE; c.conn = o.conn; c.a = 11; c.idm = ID_NONE; c.join = true; sc.ops.push_back(c); } // no id: nothing is sent back
+				continue;
+			}
+			sc.ops.push_back(o);
+		}
 		sc.order_seed = order_seed; sc.end = end;
 		return sc;
 	}, rc::gen::container<std::vector<Op>>(c10_op()), rng(0, 4), rng(0, 2), rng(0, 5));
